@@ -60,7 +60,7 @@ def run(chk):
     items = Slicer(sym, sql, scfg.subject, sym.cls("Filter")).slice(scfg.func.body)
     cond = next((it for it in items if isinstance(it, Cond)), None)
     if cond is None:
-        chk.fail("R2", sql, scfg.func, "Filter: `if query.group_by:` -> query.having else query.where",
+        chk.fail("R2", sql, scfg.func, "Filter: after summarize -> query.having, before -> query.where",
                  "the SQL Filter branch does not distinguish a grouped SELECT: a filter after summarize must go to HAVING, before it to WHERE")  # fmt: skip
 
         class _Dummy:
@@ -70,15 +70,55 @@ def run(chk):
             node = scfg.func
 
         cond = _Dummy()
-    test_ok = norm(cond.test) == "query.group_by"
-
     def targets(block):
         return {norm(c.func.value) for st in block for c in calls_in(st) if isinstance(c.func, ast.Attribute) and c.func.attr == "extend"}
 
-    chk.ob("R2", sql, cond.node, "Filter: `if query.group_by:` -> query.having else query.where",
-           test_ok and targets(cond.body) == {"query.having"} and targets(cond.orelse) == {"query.where"},
-           f"SQL filter placement: test `{norm(cond.test)}`, grouped -> {sorted(targets(cond.body))}, ungrouped -> "
+    # what the Summarize slice leaves in the query state *for every grouping* (also none / only constant columns):
+    # a field is definitely truthy only if it is assigned a truthy constant; fields filled by extend()/+= from the
+    # grouping columns are empty for an ungrouped summarize
+    qname = scfg.outputs["SEL"].split(".")[0]
+    s_items = Slicer(sym, sql, scfg.subject, sym.cls("Summarize")).slice(scfg.func.body)
+    definite = {}
+    for st, _c in flat(s_items):
+        if isinstance(st, ast.Assign) and len(st.targets) == 1 and isinstance(st.targets[0], ast.Attribute) and norm(st.targets[0].value) == qname:
+            v = st.value
+            if isinstance(v, ast.Constant) and v.value:
+                definite[f"{qname}.{st.targets[0].attr}"] = v.value
+            else:
+                definite.pop(f"{qname}.{st.targets[0].attr}", None)
+    # fresh query state (before any summarize): dataclass defaults
+    qcls = sym.resolve_class(sql, "Query")
+    fresh = {}
+    for st in qcls.node.body:
+        if isinstance(st, ast.AnnAssign) and isinstance(st.target, ast.Name):
+            if st.value is None:
+                continue
+            v = st.value
+            if isinstance(v, ast.Constant):
+                fresh[f"{qname}.{st.target.id}"] = v.value
+            elif "default_factory=list" in norm(v).replace(" ", "") or "default_factory=dict" in norm(v).replace(" ", "") or "default_factory=set" in norm(v).replace(" ", ""):
+                fresh[f"{qname}.{st.target.id}"] = []
+    from ..flags import is_conc
+
+    def decide(binding):
+        try:
+            return Evaluator(dict(binding)).ev(cond.test, dict(binding))
+        except Unsupported:
+            return Sym("?")
+
+    after = decide(definite)
+    before = decide(fresh)
+    placed = targets(cond.body) == {f"{qname}.having"} and targets(cond.orelse) == {f"{qname}.where"}
+    chk.ob("R2", sql, cond.node, "Filter: after summarize -> query.having, before -> query.where", placed,
+           f"SQL filter placement: test `{norm(cond.test)}`, true -> {sorted(targets(cond.body))}, false -> "
            f"{sorted(targets(cond.orelse))}; a filter after summarize must act on the aggregated rows (HAVING), before it on the input rows (WHERE)")  # fmt: skip
+    chk.ob("R2", sql, cond.node, "Filter placement test is true after every summarize (grouped, ungrouped, constant grouping columns)",
+           is_conc(after) and bool(after) is True,
+           f"the test `{norm(cond.test)}` that sends a filter to HAVING is not decided by what the Summarize slice always sets "
+           f"({sorted(definite) or 'nothing'}): after an ungrouped summarize (or one grouped by constants only) it is false, the predicate on "
+           "the aggregate is put into WHERE and the statement is invalid / filters the input rows")  # fmt: skip
+    chk.ob("R2", sql, cond.node, "Filter placement test is false on a fresh query", is_conc(before) and not before,
+           f"the test `{norm(cond.test)}` is not false for a query without summarize: plain filters would go to HAVING")  # fmt: skip
     # compile_query, one-hot
     cq = sql.func("SqlImpl.compile_query")
     qparam = cq.args.args[2].arg
